@@ -81,16 +81,11 @@ pub fn eval_pipelined(h: &[Msg]) -> Option<(String, String)> {
         return Some(("pipelined:killed-by-signal".into(), String::new()));
     }
     if let Some(e) = &o.frame_error {
-        // an ungraceful exit(1) may tear the last frame
-        if exp.exit_code != Some(1) {
-            return Some(("pipelined:malformed-output".into(), e.clone()));
-        }
-        return None;
+        return Some(("pipelined:malformed-output".into(), e.clone()));
     }
-    // `exit` outside the shutdown phase ends the process at once; responses still queued may be
-    // lost there (ungraceful by definition) - everywhere else every response must arrive
-    let require_all = exp.exit_code != Some(1);
-    if let Err((k, d)) = check_responses(&o.frames, &exp, require_all) {
+    // every response must arrive, also in front of an `exit` without `shutdown` (the process
+    // ends with status 1, but only after the queued responses are written)
+    if let Err((k, d)) = check_responses(&o.frames, &exp, true) {
         return Some((format!("pipelined:{}", k), d));
     }
     if let Some(c) = exp.exit_code {
@@ -132,35 +127,15 @@ pub fn eval_prefix(h: &[Msg], cut: usize) -> Option<(String, String)> {
     }
     // the output must be a well-formed prefix of the expected response stream; complete when
     // the input ends on a frame boundary and the process is not ended by `exit` before
+    // the output must be well-formed (whatever ends the process: end of input on or off a
+    // frame boundary, `exit` with or without `shutdown`) and contain the response to every
+    // request of the complete frames
     let frames_out = match crate::session::parse_frames(&o.raw) {
         Ok(f) => f,
-        Err(e) => {
-            // `exit` outside the shutdown phase ends the process at once (ungraceful by
-            // definition): the responder may be cut off in the middle of a frame
-            if on_boundary && exp.exit_code != Some(1) {
-                return Some(("malformed-output".into(), e));
-            }
-            // a torn last frame is tolerated off a frame boundary: check the complete ones
-            let mut raw = o.raw.clone();
-            let mut frames = vec![];
-            while !raw.is_empty() {
-                match crate::session::parse_frames(&raw) {
-                    Ok(f) => {
-                        frames = f;
-                        break;
-                    }
-                    Err(_) => {
-                        raw.pop();
-                    }
-                }
-            }
-            frames
-        }
+        Err(e) => return Some(("malformed-output".into(), e)),
     };
-    // `exit` outside the shutdown phase ends the process without flushing (pipelined): only
-    // the prefix property is required then
-    let require_all = on_boundary && exp.exit_code != Some(1);
-    if let Err((k, d)) = check_responses(&frames_out, &exp, require_all) {
+    let _ = on_boundary;
+    if let Err((k, d)) = check_responses(&frames_out, &exp, true) {
         return Some((format!("prefix:{}", k), d));
     }
     None
